@@ -18,7 +18,7 @@ func init() { register(c19{}) }
 func (c19) ID() string            { return "C19" }
 func (c19) EvidenceLevel() string { return "exploration" }
 func (c19) Rule() string {
-	return "case = (constructor 4K or ordinary, level in {1,2,-1} plus 3..9 on the 4K constructor, data built so that matches exist exactly at a chosen distance: a random chunk repeated with period p for p in 4090..4102, 32762..32774, 65530..65542 (16-bit position aliasing), two interleaved periods, far copies at W-1/W/W+1, inputs of 3-5 x 64 KiB; Write/Flush partitions as in C09). The reference inflater decodes the whole output recording every match distance: the maximum must be <= 4096 (4K constructor) resp. <= 32768, the stream must also decode with a reference whose history is truncated to the window, and the data must round-trip. Non-trivial: the stream contains at least one match; distinct by (setting, data digest, schedule)."
+	return "case = (constructor 4K or ordinary, level in {1,2,-1} plus 3..9 on the 4K constructor, data built so that matches exist exactly at a chosen distance: a random chunk repeated with period p for p in 4090..4102, 32762..32774, 65530..65542 (16-bit position aliasing), two interleaved periods, far copies at W-1/W/W+1, inputs of 3-5 x 64 KiB; an enumerated sweep of total lengths W+1..W+48 with period W+1..W+3 over a compressible unit, compressed in one go; Write/Flush partitions as in C09). The reference inflater decodes the whole output recording every match distance: the maximum must be <= 4096 (4K constructor) resp. <= 32768, the stream must also decode with a reference whose history is truncated to the window, and the data must round-trip. Non-trivial: the stream contains at least one match; distinct by (setting, data digest, schedule)."
 }
 func (c19) NumCases(tier string) int {
 	if tier == "thorough" {
@@ -101,6 +101,58 @@ func (c19) Run(c *mon.Ctx, i int) {
 		ops = append(ops, gen.Op{Kind: "close"})
 		c.Count("tiny-tail-histories", 1)
 	}
+	if i%10 == 3 {
+		// first-window-boundary sweep: the stream is W+1..W+48 bytes long in all
+		// when the first compression happens, and the only repeats in it lie
+		// just beyond the window (period W+1..W+3 over a compressible unit, so
+		// that matches inside the unit move the match finder's position parity)
+		k := i / 10
+		n := W + 1 + k%48
+		p := W + 1 + (k/48)%3
+		fam := []string{"alpha8", "text", "alpha4", "alpha16", "dominant"}[(k/144)%5]
+		mk := func() (gen.Data, []gen.Op) {
+			unit := gen.Make(r, fam, p).B
+			for len(unit) < p {
+				unit = append(unit, byte(r.Intn(256)))
+			}
+			head := 0
+			if r.Chance(3, 4) {
+				// a head that occurs nowhere else in the unit: its hash slot still
+				// points at position 0 when the repeat arrives one period later
+				head = r.Range(4, 20)
+				for j := 0; j < head; j++ {
+					unit[j] = byte(0x80 + r.Intn(0x80))
+				}
+			}
+			b := make([]byte, n)
+			for j := range b {
+				b[j] = unit[j%p]
+			}
+			d := gen.Data{Desc: fmt.Sprintf("first-boundary/n=%d/period=%d/%s/head=%d", n, p, fam, head), B: b}
+			ops := []gen.Op{{Kind: "write", N: n}, {Kind: "close"}}
+			switch r.Intn(4) {
+			case 0:
+				ops = []gen.Op{{Kind: "write", N: n}, {Kind: "flush"}, {Kind: "close"}}
+			case 1:
+				a := r.Range(1, n-1)
+				ops = []gen.Op{{Kind: "write", N: a}, {Kind: "write", N: n - a}, {Kind: "close"}}
+			}
+			return d, ops
+		}
+		// several units per (n, p): whether a far candidate is probed depends on
+		// the unit (hash slot survival, position parity)
+		for t := 0; t < 7; t++ {
+			dd, oo := mk()
+			o, e := emit(c.API, s, dd.B, oo)
+			if e != nil {
+				c.Count("dropped:writer-error", 1)
+				continue
+			}
+			c19Verify(c, -1, s, W, dd, oo, o, false)
+		}
+		d, ops = mk()
+		c.Count("first-window-boundary-sweep", 1)
+	}
 	// call pattern: in a third of the cases the Writer has served another stream
 	// before (written, perhaps closed, then Reset)
 	reused := i%3 == 1
@@ -128,6 +180,10 @@ func (c19) Run(c *mon.Ctx, i int) {
 		c.Count("dropped:writer-error", 1)
 		return
 	}
+	c19Verify(c, i, s, W, d, ops, out, reused)
+}
+
+func c19Verify(c *mon.Ctx, i int, s Setting, W int, d gen.Data, ops []gen.Op, out []byte, reused bool) {
 	c.Eval(1)
 	desc := map[string]interface{}{"writer_reused_after_reset": reused, "setting": s.String(), "data": d.Desc, "data_sha": mon.Sha(d.B), "ops": gen.OpsString(ops), "window": W}
 	res := refinf.Inflate(out, refinf.Options{Strict: true, MaxOut: len(d.B) + 1024})
@@ -161,7 +217,7 @@ func (c19) Run(c *mon.Ctx, i int) {
 	if res.Matches > 0 {
 		c.Nontrivial(s.String(), d.B, gen.OpsString(ops))
 	}
-	if i%131 == 0 {
+	if i >= 0 && i%131 == 0 {
 		desc["max_distance"] = res.MaxDist
 		desc["matches"] = res.Matches
 		c.Sample(desc)
